@@ -24,7 +24,6 @@ impl Tour {
     pub open spec fn wf(&self) -> bool {
         &&& self.network.wf()
         &&& self.nodes@.len() >= 1
-        &&& self.nodes@.len() <= 0x1_0000_0000
         &&& all_in_net(&self.network, self.nodes@)
         &&& connected(&self.network, self.nodes@)
         &&& (self.is_dummy ==> no_depot(&self.network, self.nodes@))
